@@ -1286,7 +1286,7 @@ def check(ctx):
             if ctx.thorough or ctx.rng.random() < 0.25:
                 jobs.append((k, spec, 2))
     # ---- random structured functions -----------------------------------------------------------------------------------
-    n = 400 if ctx.thorough else 40
+    n = 300 if ctx.thorough else 40
     rjobs = []
     for k in TARGETS:
         d = info[k]
@@ -1297,7 +1297,7 @@ def check(ctx):
                     "avoid": [] if free else d["excluded"], "size": ctx.rng.choice([4, 8, 16, 30])}
             rjobs.append((k, spec, ctx.rng.choice([0, 2])))
     # ---- modules of the shared generator harness/irgen.py (continue/break, swaps, self-referencing phis, switch chains)
-    ni = 150 if ctx.thorough else 8
+    ni = 60 if ctx.thorough else 8
     for k in TARGETS:
         wide = ["i32", "u32"] + (["i64", "u64"] if "i64" in info[k]["types"] else [])
         allint = [t for t in info[k]["types"] if t[0] in "iu"]
